@@ -62,9 +62,9 @@ Proof. exact comp_regex_correct. Qed.
 Print Assumptions C18_comp_regex_correct.
 
 (** ** 3. translate_correct.
-    Full statement (NOT proved in general):
-      forall r p w, fe_accepts r = true -> quantifier bounds ordered ->
-        program r = Ok p /\ (no_linebreak w -> (vm_accepts p w <-> matches w r)).
+    Full statement (NOT proved in general; false without [greedy r], see 4.):
+      forall r w, fe_accepts r = true -> greedy r = true -> quantifier bounds ordered ->
+        exists p, program r = Ok p /\ (no_linebreak w -> (vm_accepts p w <-> matches w r)).
     Proved: the statement under the side condition [program r = Ok (comp_regex r)]
     (the labelled translation with [_relabel_in_place] and [_remove_noop_in_place]
     produces the label-free compilation). The side condition is decidable; it is
@@ -73,11 +73,12 @@ Print Assumptions C18_comp_regex_correct.
     syntactic lemma [program r = Ok (comp_regex r)] for all accepted trees. *)
 Theorem C18_translate_correct_partial : forall c mid p w,
   terms_of c = t_start :: mid ++ [t_end] -> forallb okt mid = true ->
+  greedy (UCons c UNil) = true ->
   program (UCons c UNil) = Ok p -> p = comp_regex (UCons c UNil) ->
   no_linebreak w ->
   (vm_accepts p w <-> matches w (UCons c UNil)).
 Proof.
-  intros c mid p w H1 H2 _ Hp H3. rewrite Hp. exact (comp_regex_correct c mid w H1 H2 H3).
+  intros c mid p w H1 H2 _ _ Hp H3. rewrite Hp. exact (comp_regex_correct c mid w H1 H2 H3).
 Qed.
 Print Assumptions C18_translate_correct_partial.
 
@@ -101,22 +102,23 @@ Example C18_nonvacuous :
                     (Some (mkQ false 1%nat None));
                Term (VSet true [(120, Some 122)]) (Some (mkQ false 2%nat (Some 3%nat)));
                star (VSym SDot)] = true
+  /\ greedy t_mixed = true /\ eps_cyclic (comp_regex t_mixed) = false
   /\ matchb (s2l "abcab!!zzz") t_mixed = true /\ matchb (s2l "ab") t_mixed = false
-  /\ cpp_match false (enough_fuel (comp_regex t_mixed)) (comp_regex t_mixed) (s2l "abcab!!zzz")
+  /\ cpp_match true shipped_fuel (comp_regex t_mixed) (s2l "abcab!!zzz")
      = Ok true
-  /\ cpp_match false (enough_fuel (comp_regex t_mixed)) (comp_regex t_mixed) (s2l "ab")
+  /\ cpp_match true shipped_fuel (comp_regex t_mixed) (s2l "ab")
      = Ok false.
 Proof. vm_compute. repeat split; reflexivity. Qed.
 Print Assumptions C18_nonvacuous.
 
 (** ** 4. translate_total / labels_wf.
-    Full statements (NOT proved in general):
+    Full statement of totality, as the property demands it:
       translate_total : fe_accepts r = true -> exists p, translate r = Ok p
-      labels_wf       : program r = Ok p -> targets_ok p = true
-    Both follow from the missing lemma of 3. Proved: the two crash classes found on the
-    shipped code are excluded in the modelled (fixed) behaviour —
-    an inner start anchor makes the translator crash, and the (fixed) front end no
-    longer accepts such a pattern; a non-greedy quantifier is translated like a greedy one. *)
+    It is REFUTED for the code as it is: a pattern with a non-greedy quantifier passes the
+    front end and [transform_regex] raises [NotImplementedError] (known finding
+    [nongreedy-notimplemented]; the repair would edit a pinned test case).
+    NOT proved: totality under the additional hypothesis [greedy r = true] (it follows
+    from the missing syntactic lemma of 3.). *)
 (** labels_wf, proved for the label-free program of every anchored pattern: every
     jump/split target is an index of the program (so the validation loop at the top of
     the C++ [Match] never throws and [Spawn] never indexes outside [has_]). *)
@@ -132,11 +134,11 @@ Theorem C18_inner_start_rejected_by_front_end :
 Proof. vm_compute. repeat split; reflexivity. Qed.
 Print Assumptions C18_inner_start_rejected_by_front_end.
 
-Theorem C18_non_greedy_translated :
-  fe_accepts t_non_greedy = true
-  /\ program t_non_greedy = Ok [IChar 97; ISplit 0 2; IEnd; IMatch]%nat.
-Proof. vm_compute. split; reflexivity. Qed.
-Print Assumptions C18_non_greedy_translated.
+Theorem C18_translate_total_refuted :
+  exists r, fe_accepts r = true /\ greedy r = false
+            /\ translate r = Crash NotImplementedError.
+Proof. exists t_non_greedy. vm_compute. repeat split; reflexivity. Qed.
+Print Assumptions C18_translate_total_refuted.
 
 (** ** 5. character sets: sorting the ranges does not change membership (all sets) *)
 Theorem C18_set_instruction_sound : forall compl rs c,
@@ -146,17 +148,20 @@ Print Assumptions C18_set_instruction_sound.
 
 (** ** 6. the generated C++ matcher.
     Full statements (NOT proved in general):
-      cpp_match_refines    : cpp_match false fuel p w = Ok b -> (b = true <-> vm_accepts p w)
+      cpp_match_refines    : cpp_match true fuel p w = Ok b -> (b = true <-> vm_accepts p w)
       cpp_match_terminates : targets_ok p = true -> constructible p = true ->
-                             cpp_match false (enough_fuel p) p w <> Crash OutOfFuel
+                             exists fuel, cpp_match true fuel p w <> Crash OutOfFuel
+                             (a _partial form for [eps_cyclic p = false] is NOT proved)
     (validated by the "cpp-model" stream against re.fullmatch and by the compiled
     matcher). Proved: termination is REFUTED for the matcher as shipped, where
     [ThreadList::Pop] clears [has_]: on the program of t_star_star (an epsilon-cycle
     0 -> 1 -> 4 -> 0) and the word "a" the loop is still running after 5000
-    iterations of one phase (the compiled C++ never returns, see docs/C18.md), whereas
+    iterations of one phase (the compiled C++ never returns: known finding
+    [cpp-match-epsilon-cycle-nontermination], see docs/C18.md), whereas
     with the flag kept until [Clear] it answers within [enough_fuel]. *)
 Theorem C18_cpp_match_terminates_refuted :
   exists p w, program t_star_star = Ok p
+    /\ eps_cyclic p = true
     /\ cpp_match true (50 * 100)%nat p w = Crash OutOfFuel
     /\ cpp_match false (enough_fuel p) p w = Ok true.
 Proof.
